@@ -27,31 +27,46 @@ from . import sim_c13
 ID = "C13"
 LEVEL = "proof"
 ENGINES = ["lean-model", "purediff", "kopfsim"]
+# LEVEL is the schema enum; STRENGTH says how much of the property the theorems carry: "partial" because the ensemble
+# clauses are proved under a named guard only (and two of them are FALSE of the code: F4/F5, F7) and the pause effects rest on
+# the simulation oracle alone.
+STRENGTH = "partial"
 TIE = ("S: every call of the real process_peering_event (direct calls on generated status contents + all calls inside "
        "multi-operator simulations) replayed through the Lean `decideEv`; D exhaustive for keepalive period / touch payload; "
        "S on the transition system: every write to the peering object in the simulations replayed through `Status.patch` "
-       "(C13.write) and every call that cleans replayed as a `deliverStale` step on (view, status at landing) (C13.stale)")
-LEVEL_TEXT = ("Lean theorems. Per call, all status contents: paused_iff, turned_iff, dead_cleaned, wake_at_deadline. Transition system "
-              "(any number of operators; labels start, keepalive(lag), exit, exitLost, kill, deliver (current view), deliverStale (old "
-              "view, clean lands on the current status), tick, expire, foreign, wake(lag)): for ALL label lists withdrawn_stays(_from), "
-              "stale_verdict; under the guard 'every processed view is current' the *_partial theorems exactly_top_partial, "
-              "at_most_one_active_partial, settle_partial, failover_exit_partial, failover_lost_exit_partial (+ "
-              "equal_priority_both_paused); without the guard the clause is FALSE of the code: stale_view_two_active_witness (= open "
-              "finding F4, replayed on the real code; F5 is the same root). Timely runs (every touch() <= B ticks, 2B < min(5, L-1) s "
-              "resp. 1/2 s for L = 1, no old views, nobody writes under an operator's identity): own_record_fresh (Good.own as an "
-              "invariant), backed by the arithmetic of keepalive_period / renewal / renewal_lifetime_one / keepalive_writes. Progress "
-              "and possibility: resume_after_expiry (expiry -> the sleeping call can wake -> touch -> delivery -> active), "
-              "convergence_possible (from ANY state a schedule leads to exactly-top). withdraw_on_exit is the landed withdrawal; a "
-              "lost one is exitLost = kill. NO theorem for the pause effects (watch streams closed, daemons stopped, no handling "
-              "beyond queued events, nothing handled twice), for inevitability of convergence, or for API failures inside a call: "
-              "these are covered by the simulation oracle only. The model is hand-written; every part of it is compared with the "
-              "real code (see tie).")
+       "(C13.write) and every call that cleans replayed as a `deliverStale` step on (view, status at landing) (C13.stale, which "
+       "also says whether the view was benign = inside the guard of the *_partial theorems: counter lts.stale_view); the Lean "
+       "witnesses of the open findings F4, F5, F7 are run through the driver (C13.run) and their claim compared with the replay "
+       "of the same scenario on the real code. NOT tied (no trace-to-label-list correspondence of whole histories): the "
+       "labels deliver (it is deliverStale with a benign view: benign_stale_eq_deliver), wake/sleeping, exit, exitBegin/exitEnd, "
+       "exitLost, kill, and the ghost nextKA/Allowed; for these the simulation oracle is the only link to the code")
+LEVEL_TEXT = ("Lean theorems, STRENGTH partial. FULL (no guard): per call, all status contents: paused_iff, turned_iff, dead_cleaned, "
+              "wake_at_deadline; arithmetic keepalive_period, renewal, renewal_lifetime_one; for ALL label lists (old views, lost "
+              "exits, kills, both exit orders): withdraw_on_exit, withdrawn_stays(_from); exit_two_phase (the code's stop = record "
+              "withdrawn FIRST (exitBegin) ... handling ended LAST (exitEnd) composes to the proper stop `exit` when nothing happens in "
+              "between). PARTIAL, guard 'the last view every running operator processed was the current status or a BENIGN older one "
+              "(same verdict, same cleaning: benign_stale_eq_deliver) and nobody is between exitBegin and exitEnd' (= Stable / batches "
+              "of deliver): exactly_top_partial, at_most_one_active_partial, equal_priority_both_paused_partial, settle_partial, "
+              "failover_exit_partial, failover_after_loss_partial (kill or lost exit of anybody, then ANY interleaving of time, "
+              "keep-alives, self-touches and deliveries of the survivors, the lost one's records expired, survivors' records fresh => "
+              "after a covering delivery exactly the top survivor is active). OUTSIDE the guard the clause is FALSE of the code, with "
+              "Lean witnesses replayed on the real code: stale_view_two_active_witness (F4), restart_stale_view_two_active_witness "
+              "(F5), exit_overlap_two_active_witness (F7). PARTIAL, guard Timely (every touch() <= B ticks, 2B < min(5, L-1) s resp. "
+              "1/2 s for L = 1, no old views that are not benign, nobody writes under an operator's identity, proper exit order): "
+              "own_record_fresh. POSSIBILITY only (a schedule exists; `wake` has no time guard in the model): resume_after_expiry "
+              "(expiry -> the sleeping call can wake -> touch -> delivery -> active), convergence_possible (from ANY state with nobody "
+              "exiting; its schedule first lets EVERY record expire, then everybody re-touches and reads the current status - not a "
+              "timely run). NO theorem, simulation oracle only: the pause effects (watch streams closed, daemons stopped, no "
+              "handling beyond queued events, nothing handled twice - also across operators: clause H), inevitability of resume / "
+              "convergence, API failures inside a call. The model is hand-written; see TIE for what is and is not compared with the code.")
 THEOREMS = [("Kopf.Props.C13", "Kopf.C13." + n) for n in [
     "paused_iff", "turned_iff", "dead_cleaned", "wake_at_deadline",
-    "exactly_top_partial", "at_most_one_active_partial", "equal_priority_both_paused",
-    "stale_view_two_active_witness", "stale_verdict", "settle_partial", "failover_exit_partial", "failover_lost_exit_partial",
+    "exactly_top_partial", "at_most_one_active_partial", "equal_priority_both_paused_partial",
+    "stale_view_two_active_witness", "restart_stale_view_two_active_witness", "benign_stale_eq_deliver",
+    "exit_two_phase", "exit_overlap_two_active_witness",
+    "settle_partial", "failover_exit_partial", "failover_after_loss_partial",
     "resume_after_expiry", "convergence_possible",
-    "keepalive_period", "renewal", "renewal_lifetime_one", "own_record_fresh", "keepalive_writes",
+    "keepalive_period", "renewal", "renewal_lifetime_one", "own_record_fresh",
     "withdraw_on_exit", "withdrawn_stays_from", "withdrawn_stays"]]
 RULE = ("(1) direct calls: status of 0-5 records over a small identity pool (own record in/out), priority around the own one / "
         "missing / garbled, lifetime ints incl. 0,1,negative / numeric strings / garbage / missing, lastseen placed exactly on the "
@@ -61,7 +76,9 @@ RULE = ("(1) direct calls: status of 0-5 records over a small identity pool (own
         "operators with distinct (20%: clashing) priorities, lifetimes 1..60 s, scripted starts/stops/kills/restarts, edits of a "
         "handled object with create/update handlers and a daemon, foreign records (dead, live high/low, unknown fields, missing "
         "lifetime), per-operator peering-event delivery delays (12%: later than some keep-alive margin = the late regime, judged "
-        "only by the checks that do not presume timely delivery), 25% restarts under the same identity. A case is one "
+        "only by the checks that do not presume timely delivery), 25% restarts under the same identity, 30%: handlers that take "
+        "0.5-3 s (so that a handler overlaps a pause, a stop or a failover; in those the top operator is also stopped shortly after "
+        "an edit), 10%: API responses delayed after the write is applied, stops during the first keep-alive. A case is one "
         "process_peering_event call (direct or simulated) "
         "or one keep-alive round or one write / stale-view step of the transition system; distinct & non-trivial = distinct abstracted (toggle-before, #dead, #prio, #same, own-record, "
         "error, sleep-kind, touch) tuples with a non-empty status.")
@@ -78,16 +95,30 @@ ASSUMPTIONS = ["one virtual clock shared by all operators (no clock skew between
                "LATENCY GUARD of renewal / own_record_fresh: every touch() call takes at most B with 2*B < min(5, lifetime-1) s "
                "(1/2 s for lifetime 1) and asyncio.sleep wakes on time; touch() goes through api.request's retry/backoff, so a single "
                "5xx/429 breaks the bound (C12's subject) - then the record may expire before it is renewed",
-               "the `*_partial` theorems hold under 'every processed view is current'; real calls always see an older view (watch latency): "
-               "F4/F5 are what happens when the view is older than the keep-alive margin / than a restart",
+               "the `*_partial` theorems hold under 'every processed view is current or BENIGN (same verdict, same cleaning as the current "
+               "status)'; real calls nearly always see an older view (watch latency) - how many of the cleaning calls of a run are benign is "
+               "counted (lts.stale_view); F4/F5 are the non-benign ones: the view older than a keep-alive margin / than a restart",
+               "the peering object itself stays: deleting the KopfPeering/ClusterKopfPeering object (or its CRD) while operators run is "
+               "outside the quantifier of the property ('any set of operators, any order of starts/exits/kills, any delivery timing'); there "
+               "touch() gets a 404 that is only logged, no event arrives any more and a paused operator stays paused until the object is "
+               "re-created (audit N2, reproduced; recorded as an observation, not a finding - sim_c13 can do it: delete_peering/create_peering)",
+               "the API server applies the PATCHes of one client in the order they were issued: a self-touch or keep-alive still in flight "
+               "when the withdrawal is issued and applied AFTER it would leave the record behind (audit N3: reproduced with injected "
+               "reordering only; the model lands `wake`/`keepalive` at once; proposals/fix-C13F7 removes the coincidence for the "
+               "self-touch because the watcher stops before the pinger withdraws)",
+               "`wake` has no time guard in the model (it may fire before the deadline, with any lag outside Timely): resume_after_expiry "
+               "says the sleeping call CAN wake, not that it does at the deadline; the oracle (B) checks the latter on the real code",
+               "lifetimes whose deadline lies beyond year 9999 (about 2.5e11 s) make Peer() raise OverflowError in the code - every peer "
+               "raises, as for a garbled record; the model computes with unbounded integers; generators stay <= 604800 s",
                "an API error inside clean()/touch() of process_peering_event makes the call raise and (since 9ef1bcb) the operator stop: "
                "`deliver` cannot fail in the model; likewise a garbled record (any theorem is silent on `= .error`): one malformed "
                "record written by anybody raises in every peer",
                "the transition system starts operators pre-paused (mandatory peering, as in the simulations); with optional peering an "
                "operator is active until its first peering event",
                "ORACLE-ONLY clauses (no Lean theorem): paused => watch streams closed; daemons stopped; no change handling beyond events "
-               "already queued; no handler executed twice because of the pause; convergence is inevitable (only possible: convergence_possible); "
-               "F3 (daemon killer) regression"]
+               "already queued; no handler executed twice because of the pause - within one operator and (clause H) across operators, "
+               "an operator counting as running until its stop has COMPLETED; convergence / resume are inevitable (only possible: "
+               "convergence_possible, resume_after_expiry); F3 (daemon killer), F6 regressions"]
 
 TPS = sim_c13.TPS
 LAT = 1.0 / 64
@@ -1189,6 +1220,9 @@ def run(ctx: Ctx) -> None:
     for req, impl, out, wh in zip(lts[0], lts[1], outs[len(reqs) + len(ka_reqs):], lts[2]):
         m = out[1] if out and out[0] == "ok" else out
         if req[0] == "C13.stale" and isinstance(m, dict):
+            # how much of the real staleness lies inside the guard of the `_partial` theorems (`benign_stale_eq_deliver`)
+            ctx.count("lts.stale_view", ("current" if req[1]["view"] == req[1]["current"] else
+                                         "older, benign (inside the guard)" if m.get("benign") else "older, NOT benign (outside the guard)"))
             m = {"status": m["status"], "paused": m["paused"]}
         ctx.compare("C13 transition system: " + ("write semantics" if req[0] == "C13.write" else "stale-view step"), impl, m, wh)
         ctx.case(key={"lts": req[0], "n": min(len(req[1]) if isinstance(req[1], list) else len(req[1]["current"]), 3)}, nontrivial=True)
@@ -1208,6 +1242,27 @@ def run_witness(ctx: Ctx, name: str, d: dict) -> None:
     other = [f for f in fails if f not in hits and also != "*" and (f[3] or {}).get("shape") not in also]
     for f in other[:3]:
         ctx.oracle_fail(f[1], f[2], f[3])
+    ln = d.get("lean")
+    if ln:
+        # the Lean witness of the same finding (a theorem proved by `decide` on this very label list), run through the
+        # driver: what it claims of its end state must be what the replay on the real code showed
+        try:
+            out = ctx.driver.ask([["C13.run", TPS, ln["ids"], ln["labels"]]])[0]
+        except leanio.LeanError as e:
+            ctx.tie_fail(f"Lean driver failed: {e}", {"log": e.log})
+            return
+        snaps = out[1] if out and out[0] == "ok" else None
+        model: Any = out
+        if snaps:
+            last = snaps[-1]
+            ops_ = last["ops"]
+            model = {"both_active": all(ops_.get(i, {}).get("alive") and not ops_.get(i, {}).get("paused") for i in ln["both_active"]),
+                     "running_without_record": sorted(i for i, o in ops_.items()
+                                                      if o["alive"] and i not in [e[0] for e in last["status"]])}
+        impl = {"both_active": bool(hits) or None, "running_without_record": ln["running_without_record"] if hits else None}
+        ctx.compare(f"C13 witness {name}: Lean run ({ln['theorem']}) vs replay on the real code", impl, model,
+                    {"scenario": d["scenario"], "witness": name, "lean": ln})
+        ctx.case(key={"witness": name}, nontrivial=True)
 
 
 def search(ctx: Ctx, broken: list) -> None:
